@@ -395,6 +395,32 @@ theorem old_posToSlope_counterexample :
     addDepth ([(1, 0), (1, 0), (1, 0)] : List (ℚ × ℚ)) [(1, 0), (2, 1), (3, 0)] = [(1, 0), (2, 1), (3, 0)] := by
   norm_num [wfDepth, chainOk, posToSlopeOld, addDepth, posToSlope, sumSlopes, slopeToPos, slopeToPosAux]
 
+/-- **nonzero_start_counterexample** (the known finding
+    `persim/landscapes/auxiliary.py:slope-representation-starts-at-zero` as a theorem about the model of
+    the current code): for the hand-made critical points `[(0,1),(2,1)]` — the constant 1 on `[0,2]`,
+    first ordinate not 0, so outside the guard `wfDepth` — the merged-slope sum with the tent
+    `[(0,0),(1,1),(2,0)]` is the tent itself: the offset is lost (at `t = 1` the result is `1`, the
+    pointwise sum is `2`).  So the guard of `sum_eval` is necessary, and the part "arbitrary critical
+    points" of C09's quantifier is violated by the code (listed in known_findings.txt). -/
+theorem nonzero_start_counterexample :
+    wfDepth ([(0, 1), (2, 1)] : List (ℚ × ℚ)) = false ∧
+    wfDepth ([(0, 0), (1, 1), (2, 0)] : List (ℚ × ℚ)) = true ∧
+    addDepth ([(0, 1), (2, 1)] : List (ℚ × ℚ)) [(0, 0), (1, 1), (2, 0)] = [(0, 0), (1, 1), (2, 0)] ∧
+    evalPL (addDepth ([(0, 1), (2, 1)] : List (ℚ × ℚ)) [(0, 0), (1, 1), (2, 0)]) 1 = 1 ∧
+    evalPL ([(0, 1), (2, 1)] : List (ℚ × ℚ)) 1 + evalPL ([(0, 0), (1, 1), (2, 0)] : List (ℚ × ℚ)) 1 = 2 := by
+  norm_num [wfDepth, chainOk, addDepth, posToSlope, sumSlopes, slopeToPos, slopeToPosAux, evalPL]
+
+/-- the same mechanism at the right end: a last ordinate that is not 0 (`[(0,0),(1,1)]` drops from 1 to
+    0 right of `t = 1`) is continued with slope 0, so the sum with the tent `[(0,0),(2,2),(4,0)]` is
+    `3` at `t = 2` instead of `2` — the zero LAST ordinate of `wfDepth` is necessary as well. -/
+theorem nonzero_last_counterexample :
+    wfDepth ([(0, 0), (1, 1)] : List (ℚ × ℚ)) = false ∧
+    wfDepth ([(0, 0), (2, 2), (4, 0)] : List (ℚ × ℚ)) = true ∧
+    addDepth ([(0, 0), (1, 1)] : List (ℚ × ℚ)) [(0, 0), (2, 2), (4, 0)] = [(0, 0), (1, 2), (2, 3), (4, 1)] ∧
+    evalPL (addDepth ([(0, 0), (1, 1)] : List (ℚ × ℚ)) [(0, 0), (2, 2), (4, 0)]) 2 = 3 ∧
+    evalPL ([(0, 0), (1, 1)] : List (ℚ × ℚ)) 2 + evalPL ([(0, 0), (2, 2), (4, 0)] : List (ℚ × ℚ)) 2 = 2 := by
+  norm_num [wfDepth, chainOk, addDepth, posToSlope, sumSlopes, slopeToPos, slopeToPosAux, evalPL]
+
 private def P : Exact ℚ := ⟨0, [a, [(1, 0), (2, 1), (3, 0)], b]⟩
 private def Q : Exact ℚ := ⟨0, [c]⟩
 
